@@ -8,6 +8,7 @@ import (
 	"sort"
 	"strings"
 	"time"
+	_ "time/tzdata" // zones with daylight saving, independent of the host
 
 	"github.com/ipfs/go-cid"
 	"github.com/ipld/go-ipld-prime"
@@ -60,7 +61,7 @@ var (
 	tokValueLabels = []string{"bool", "int0", "int1", "int-1", "int53max", "int53min", "float1.5", "float1.0", "float-0", "float-min", "float-max",
 		"str-empty", "str-ascii", "str-utf8", "bytes-empty", "bytes", "list", "map", "link", "null"}
 
-	timeLabels = []string{"absent", "whole", "subsec", "in-past", "2^53-1", "2^53", "y9999", "maxtime", "zero", "epoch", "unix-1", "unix1", "subsec-up", "zone+5h30", "zone-11h-subsec"}
+	timeLabels = []string{"absent", "whole", "subsec", "in-past", "2^53-1", "2^53", "y9999", "maxtime", "zero", "epoch", "unix-1", "unix1", "subsec-up", "zone+5h30", "zone-11h-subsec", "dst-repeat-west-1st", "dst-repeat-west-2nd", "dst-repeat-east-1st", "dst-repeat-east-2nd"}
 )
 
 func tokValue(label string) any {
@@ -128,6 +129,15 @@ func basicInt(i int64) datamodel.Node { return nInt(i) }
 // isIntegralFloat tells whether the label denotes a float the DAG-JSON codec prints without a fraction.
 func isIntegralFloat(label string) bool { return label == "float1.0" || label == "float-0" }
 
+// mustZone loads a zone from the time zone database embedded in the binary (time/tzdata).
+func mustZone(name string) *time.Location {
+	l, err := time.LoadLocation(name)
+	if err != nil {
+		panic("harness: " + err.Error())
+	}
+	return l
+}
+
 func tokTime(label string) (time.Time, bool) {
 	switch label {
 	case "whole":
@@ -154,6 +164,15 @@ func tokTime(label string) (time.Time, bool) {
 		return time.Date(2200, 6, 1, 12, 0, 0, 0, time.FixedZone("X", 5*3600+1800)), true
 	case "zone-11h-subsec":
 		return time.Date(2200, 6, 1, 12, 0, 0, 999_999_999, time.FixedZone("Y", -11*3600)), true
+	// instants inside the wall-clock hour that a daylight-saving zone goes through twice when the clocks are set back
+	case "dst-repeat-west-1st":
+		return time.Date(2031, 11, 2, 5, 30, 0, 0, time.UTC).In(mustZone("America/New_York")), true
+	case "dst-repeat-west-2nd":
+		return time.Date(2031, 11, 2, 6, 30, 0, 0, time.UTC).In(mustZone("America/New_York")), true
+	case "dst-repeat-east-1st":
+		return time.Date(2031, 10, 26, 0, 30, 0, 0, time.UTC).In(mustZone("Europe/Berlin")), true
+	case "dst-repeat-east-2nd":
+		return time.Date(2031, 10, 26, 1, 30, 0, 0, time.UTC).In(mustZone("Europe/Berlin")), true
 	case "subsec-up": // a fraction above one half
 		return time.Date(2200, 1, 1, 0, 0, 0, 750_000_000, time.UTC), true
 	}
@@ -253,7 +272,7 @@ func invOptDefs() []optDef {
 		{"args", argsLabels()},
 		{"prf", []string{"1", "0", "3"}},
 		{"exp", timeLabels},
-		{"iat", []string{"auto", "none", "whole", "subsec", "2^53", "zero", "epoch", "unix-1", "subsec-up", "zone+5h30", "zone-11h-subsec"}},
+		{"iat", []string{"auto", "none", "whole", "subsec", "2^53", "zero", "epoch", "unix-1", "subsec-up", "zone+5h30", "zone-11h-subsec", "dst-repeat-west-1st", "dst-repeat-west-2nd", "dst-repeat-east-1st", "dst-repeat-east-2nd"}},
 		{"meta", metaLabels()},
 		{"nonce", []string{"auto", "12", "64", "empty"}},
 		{"cause", []string{"nil", "cid"}},
@@ -489,6 +508,10 @@ func BuildToken(spec TokSpec) (any, *fixtures.Key, error) {
 			opts = append(opts, delegation.WithNonce([]byte("0123456789ab")))
 		case "64":
 			opts = append(opts, delegation.WithNonce(bytes.Repeat([]byte{0xab}, 64)))
+		default:
+			if l := opt("nonce", "auto"); strings.HasPrefix(l, "ctr:") {
+				opts = append(opts, delegation.WithNonce([]byte("verif-ctr-"+l[4:]+"-0123456")))
+			}
 		}
 		cmd, pol := tokCommand(opt("cmd", "/a")), tokPolicy(opt("pol", "empty"))
 		if f, n, ok := sizeOption(spec); ok {
@@ -590,6 +613,10 @@ func BuildToken(spec TokSpec) (any, *fixtures.Key, error) {
 		opts = append(opts, invocation.WithNonce(bytes.Repeat([]byte{0xab}, 64)))
 	case "empty":
 		opts = append(opts, invocation.WithEmptyNonce())
+	default:
+		if l := opt("nonce", "auto"); strings.HasPrefix(l, "ctr:") {
+			opts = append(opts, invocation.WithNonce([]byte("verif-ctr-"+l[4:]+"-0123456")))
+		}
 	}
 	if opt("cause", "nil") == "cid" {
 		c := cidPool[43]
